@@ -103,7 +103,8 @@ type Slice struct {
 	Obj           *Obj // array object; nil for nil slice
 	Off, Len, Cap int
 	// JSON: abstract byte payload (see json model); when non-nil the slice is a []byte holding a JSON text
-	Abs interface{}
+	Abs   interface{}
+	Guard *T // if non-nil: the slice is nil when Guard is false
 }
 
 type MapEntry struct {
@@ -122,15 +123,17 @@ type Map struct {
 }
 
 type MapRef struct {
-	M *Map // nil = nil map
+	M     *Map // nil = nil map
+	Guard *T   // if non-nil: the map is nil when Guard is false
 }
 
 type Struct struct{ F []Value }
 type Array struct{ E []Value }
 
 type Iface struct {
-	T types.Type // dynamic type; nil = nil interface
-	V Value
+	T     types.Type // dynamic type; nil = nil interface
+	V     Value
+	Guard *T // if non-nil: the interface is nil when Guard is false
 }
 
 type Closure struct {
